@@ -16,6 +16,11 @@ iterates a Python `set`, reuses a module-level cache, or mutates an object durin
   dup_names      the same question name in several groups / repeats (legal while unreferenced), plus triggers,
                  dynamic defaults and a repeat: anything `xml()` records per *name* on the survey object is
                  ambiguous on the second `xml()`
+  type_sweep     one question of every type of the type table (all spellings), selects included
+  param_sweep    every parameter family (range, text rows, image, audio/background-audio quality, geo accuracy,
+                 select randomize/seed, select-from-file value/label, audit) with every subset of its parameters
+                 given and the rest left to defaults, in shuffled order: any set iteration introduced in the
+                 handling of defaults / parameters / attributes of some type shows up under another hash seed
   entities       entities sheet (get_nsmap appends to survey.namespaces: F36)
   missing_header required header absent (error text built from a set)
   twin           the same rows with every group <-> repeat swapped (same names/xpaths, different tree:
@@ -33,7 +38,7 @@ LANG_POOL = ["en", "fr", "de", "sw", "English (en)", "French (fr)", "es", "pt"]
 FEATURES = [
     "sparse_itext", "pulldata", "or_other", "instance_label", "external", "external_nohdr", "search",
     "search_mixed", "dup_id", "entities", "missing_header", "dyn_default", "namespaces",
-    "dup_names", "plain",
+    "dup_names", "type_sweep", "param_sweep", "plain",
 ]
 
 
@@ -243,6 +248,99 @@ def add_dup_names(rng, form, langs):
         form["survey"].append({"type": "background-geopoint", "name": "trg_geo", "trigger": f"${{uniq{rng.randrange(n_sections)}}}"})
 
 
+PARAM_FAMILIES = [
+    # (type, {parameter: [values]}, extra cells)
+    ("range", {"start": ["1", "0", "0.5"], "end": ["10", "20", "7.5"], "step": ["1", "2", "0.5"]}, {}),
+    ("text", {"rows": ["3", "5"]}, {}),
+    ("image", {"max-pixels": ["640", "1024"], "app": ["com.example.camera"]}, {}),
+    ("audio", {"quality": ["voice-only", "low", "normal", "external"]}, {}),
+    ("background-audio", {"quality": ["voice-only", "low", "normal"]}, {}),
+    ("geopoint", {"allow-mock-accuracy": ["true", "false"], "capture-accuracy": ["5", "2.5"], "warning-accuracy": ["50", "10"]}, {}),
+    ("geotrace", {"allow-mock-accuracy": ["true", "false"]}, {}),
+    ("geoshape", {"allow-mock-accuracy": ["true", "false"]}, {}),
+    ("select_one pslist", {"randomize": ["true", "false"], "seed": ["42", "1.5"]}, {}),
+    ("select_multiple pslist", {"randomize": ["true"], "seed": ["7"]}, {}),
+    ("rank pslist", {"randomize": ["true"], "seed": ["3"]}, {}),
+    ("select_one_from_file pfile.csv", {"value": ["code", "id"], "label": ["title", "lbl"]}, {}),
+    ("select_multiple_from_file pfile2.xml", {"value": ["code"], "label": ["title"]}, {}),
+    ("audit", {"location-priority": ["balanced", "high-accuracy"], "location-min-interval": ["60"], "location-max-age": ["120"],
+               "track-changes": ["true", "false"], "identify-user": ["true"], "track-changes-reasons": ["on-form-edit"]}, {}),
+]
+
+
+def _subsets(rng, keys, limit=8):
+    keys = list(keys)
+    if len(keys) <= 3:
+        out = [[k for i, k in enumerate(keys) if m >> i & 1] for m in range(2 ** len(keys))]
+    else:
+        out = [[], keys] + [rng.sample(keys, k=rng.randint(1, len(keys) - 1)) for _ in range(limit - 2)]
+    return out
+
+
+def add_param_sweep(rng, form, langs):
+    """Every family, every subset of its parameters (the others are defaulted by pyxform)."""
+    form.setdefault("choices", []).extend({"list_name": "pslist", "name": f"p{i}", **_lab(langs, f"P{i}")} for i in range(3))
+    n = 0
+    fams = list(PARAM_FAMILIES)
+    rng.shuffle(fams)
+    for typ, params, extra in fams:
+        subsets = _subsets(rng, params)
+        if typ == "audit":
+            subsets = [ss for ss in subsets if len({"location-priority", "location-min-interval", "location-max-age"} & set(ss)) in (0, 3)][:1] \
+                or [[]]                       # one audit per form; the location parameters come together
+        for ss in subsets:
+            ss = list(ss)
+            rng.shuffle(ss)
+            cell = rng.choice([" ", ";", ", "]).join(f"{k}={rng.choice(params[k])}" for k in ss)
+            if typ.startswith(("select", "rank")) and "seed" in ss and "randomize" not in ss:
+                continue                     # seed without randomize is an error by design
+            row = {"type": typ, "name": "audit" if typ == "audit" else f"ps{n}", **extra}
+            if typ not in ("audit", "background-audio"):
+                row.update(_lab(langs, f"PS{n}"))
+            if cell:
+                row["parameters"] = cell
+            n += 1
+            form["survey"].append(row)
+
+
+def add_type_sweep(rng, form, langs):
+    """One row for every key of the type table."""
+    import impl  # noqa: F401  (repo on sys.path)
+    from pyxform.question_type_dictionary import QUESTION_TYPE_DICT
+
+    form.setdefault("choices", []).extend({"list_name": "tslist", "name": f"t{i}", **_lab(langs, f"T{i}")} for i in range(2))
+    types = sorted(QUESTION_TYPE_DICT)
+    rng.shuffle(types)
+    seen_audit = False
+    for i, t in enumerate(types):
+        ctrl = QUESTION_TYPE_DICT[t].get("control", {})
+        bind = QUESTION_TYPE_DICT[t].get("bind", {})
+        if t in ("osm", "select one external", "xml-external", "csv-external"):
+            continue
+        row = {"type": t, "name": f"ts{i}"}
+        if t == "audit":
+            if seen_audit:
+                continue
+            seen_audit = True
+            row["name"] = "audit"
+        if ctrl.get("tag") in ("select", "select1", "odk:rank"):
+            continue                          # selects: every alias spelling below
+        if ctrl and t not in ("audit", "background-audio", "background-geopoint", "hidden"):
+            row.update(_lab(langs, f"TS{i}"))
+        if t in ("calculate", "q calculate", "add calculate prompt"):
+            row["calculation"] = "1 + 1"
+        if t == "background-geopoint":
+            row["trigger"] = "${ts_anchor}"
+        form["survey"].append(row)
+    from pyxform import aliases
+
+    for j, sp in enumerate(sorted(aliases.select)):
+        if "external" in sp or "file" in sp:
+            continue
+        form["survey"].append({"type": f"{sp} tslist", "name": f"tsel{j}", **_lab(langs, f"Sel{j}")})
+    form["survey"].insert(0, {"type": "text", "name": "ts_anchor", **_lab(langs, "Anchor")})
+
+
 def add_dup_id(rng, form):
     st = (form.get("settings") or [{}])[0]
     st["id_string"] = rng.choice(["one", "my_form"])
@@ -316,6 +414,10 @@ def gen_c14_form(rng: random.Random, feature: str | None = None, big=False, nl: 
             add_dyn_default(rng, form, langs)
         elif f == "namespaces":
             add_namespaces(rng, form)
+        elif f == "param_sweep":
+            add_param_sweep(rng, form, langs)
+        elif f == "type_sweep":
+            add_type_sweep(rng, form, langs)
         elif f == "dup_names":
             add_dup_names(rng, form, langs)
         elif f == "entities":
